@@ -14,19 +14,56 @@ def _extra(lines, verdicts):
         ta += p[1] == "1"; fo += p[2] == "1"
         tok += r[0] != "_"; unknown_ks += r[1] in ("u", "_"); lwt += r[2] != "0"
         down += ("e" in f[4]) or ("d" in f[4])
-    return {"policy_preference_kinds": pol, "token_aware_policies": ta, "failover_permitted": fo,
+    dd = [_down_dc(ln) for ln in lines]
+    return {"preferred_dc_all_down_with_failover": dd.count(True), "preferred_dc_all_down_without_failover": dd.count(False),
+            "policy_preference_kinds": pol, "token_aware_policies": ta, "failover_permitted": fo,
             "requests_with_token": tok, "requests_without_known_keyspace": unknown_ks, "lwt_requests": lwt,
             "cases_with_down_or_disabled_nodes": down, "distinct_clusters": len(rings)}
+
+def _down_dc(ln):
+    """preferred datacenter + every token-owning node of it down, one still enabled, a remote node connected"""
+    f = ln.split(" ")
+    if len(f) < 7:
+        return None
+    pref = f[5].split("/")[0]
+    if pref[0] == "i":
+        pref = f[6].split("/")[3]
+    if pref[0] not in "dr":
+        return None
+    d = pref[1:].split(".")[0]
+    owners = {e.rsplit(".", 1)[1] for e in f[2].split(",")} if f[2] != "-" else set()
+    loc, rem = [], []
+    for nd, fl in zip(f[1].split(","), f[4]):
+        i, dc, _ = nd.split(".")
+        if i in owners:
+            (loc if dc == d else rem).append(fl)
+    if loc and "c" not in loc and "e" in loc and "c" in rem:
+        return f[5].split("/")[2] == "1"
+    return None
+
+def _post(lines, verdicts):
+    out = []
+    if len(lines) >= 20000:
+        fo = sum(1 for ln in lines if _down_dc(ln) is True)
+        nofo = sum(1 for ln in lines if _down_dc(ln) is False)
+        inh = sum(1 for ln in lines if ln.split(" ")[5].startswith("i/"))
+        for k, v, floor in (("preferred-dc-down+failover", fo, len(lines) // 400), ("preferred-dc-down,no-failover", nofo, len(lines) // 400),
+                            ("inherited-preference", inh, len(lines) // 20)):
+            if v < floor:
+                out.append(("diff", lines[0], f"diff generator floor: {k}={v} < {floor}"))
+    return out
 
 SPEC = {
     "pid": "C05",
     "coq_targets": ["Props/C05.vo", "Extract/ExC05.vo"],
     "bin": "c05",
-    "sizes": {"quick": 120000, "thorough": 1500000},
+    "sizes": {"quick": 120000, "thorough": 1000000},
+    "min_cases": {"quick": 110000, "thorough": 900000},
+    "post": _post,
     "search_n": 200000,
     "rule": ("topologies as C04 (1..12 nodes x 1..3 datacenters x 1..4 racks, datacenter-/rack-less nodes, nodes without "
              "tokens, vnodes, 1 in 8 with a token shared across datacenters) with 1..4 keyspaces (RF 0..nodes+2, RF-0 and "
-             "absent datacenters) x per-node flags {enabled+connected, enabled only, disabled} (6 assignment styles) x "
+             "absent datacenters) x per-node flags {enabled+connected, enabled only, disabled} (6 assignment styles; ALL assignments for clusters of <= 3 nodes, <= 4 in the thorough tier; a directed stream with every node of the preferred datacenter down) x "
              "DefaultPolicy {inherit / no / DC / DC+rack preference incl. absent DC and rack, token-aware on/off, failover "
              "on/off, shuffling on/off} x request {token at a ring boundary or none, known / unknown keyspace / no table, "
              "non-LWT / confirmed LWT / Serial / LocalSerial consistency, request-level preference}. One line = pick() once, "
@@ -35,7 +72,7 @@ SPEC = {
     "nontrivial": lambda ln: len(ln.split(" ")) > 6 and ("c" in ln.split(" ")[4] or "e" in ln.split(" ")[4]),
     "trusted_base": [
         "group_of / lwt_sequence / the P_* predicates of Model/Plan.v are the plan order of the property text written over the C04 replica sets",
-        "hook scylla::cluster::verif_node_flags (per-host is_enabled / is_connected override) on pool-less nodes of scylla::cluster::verif_state::cluster_state; without a sharder every shard is 0",
+        "hook scylla::cluster::verif_node_flags (per-host is_enabled / is_connected override) on the pool-less nodes of the real ClusterState::new (scylla::cluster::verif_state::cluster_state_via_new, reject-all host filter); the policy is built by DefaultPolicyBuilder::build(); without a sharder every shard is 0",
         "hashbrown / itertools unique_by: an element is dropped iff an element kept earlier compares equal (the model's dedup)",
     ],
     "assumptions": [
